@@ -348,7 +348,7 @@ pub fn property(tier: Tier) -> Property {
                 )
             },
             rule: "a start e-graph (insertions and unions), 1-4 rules of the language's pool (incl. rules that only add a symmetry or a redundancy), iteration limit 0-4, node limit in {0,1,4,12,40,400}, optionally a hook failing at a chosen iteration; driven by an apply_rewrites loop, Runner::run or run_eqsat; observable change measured by an independent fingerprint (node count, partition of all inserted (sub)terms by eq, slot and symmetry counts through eq); non-trivial = at least 2 iterations and a stop reason other than the hook; distinct by rendered case",
-            case_timeout_s: tier.pick(120, 600),
+            case_timeout_s: tier.pick(30, 120),
             exhaustive: false,
         }));
     }
